@@ -835,20 +835,60 @@ theorem component_of_not_mem {s : State} {x : Nat} (h : x ∉ s.elts) : componen
     · exact absurd ((mem_iff s x).mp hm) h
   simp [component, this]
 
+theorem compFold_spec {s : State} (inv : Inv s) (root : Nat) : ∀ (l : List Nat) (acc : State × List Nat),
+    Inv acc.1 → PEquiv s acc.1 → (∀ e, e ∈ l → e ∈ s.elts) →
+    Inv (l.foldl (compStep root) acc).1 ∧ PEquiv s (l.foldl (compStep root) acc).1 ∧
+      (l.foldl (compStep root) acc).2
+        = acc.2 ++ l.filter (fun e => decide (rootOf s (s.elts.idxOf e) = root)) := by
+  intro l
+  induction l with
+  | nil => intro acc ia pe _; exact ⟨ia, pe, by simp⟩
+  | cons e l ih =>
+    intro acc ia pe hmem
+    have he : e ∈ s.elts := hmem e (List.mem_cons_self ..)
+    have he' : e ∈ acc.1.elts := by rw [pe.elts]; exact he
+    obtain ⟨s', r, hf, inv', pe', hr, _⟩ := find_spec ia he'
+    rw [pe.elts, pe.par.reach] at hr
+    have er := (rootOf_eq_iff inv (idxOf_lt he) r).mpr hr
+    rw [List.foldl_cons]
+    by_cases hroot : r = root
+    · have hstep : compStep root acc e = (s', acc.2 ++ [e]) := by
+        rw [compStep, hf]; simp [hroot]
+      rw [hstep]
+      obtain ⟨a, b, c⟩ := ih (s', acc.2 ++ [e]) inv' (pe.trans pe')
+        (fun z hz => hmem z (List.mem_cons_of_mem _ hz))
+      refine ⟨a, b, ?_⟩
+      rw [c, List.filter_cons]
+      have : decide (rootOf s (s.elts.idxOf e) = root) = true := by rw [er, hroot]; simp
+      rw [this]; simp
+    · have hstep : compStep root acc e = (s', acc.2) := by
+        rw [compStep, hf]; simp [hroot]
+      rw [hstep]
+      obtain ⟨a, b, c⟩ := ih (s', acc.2) inv' (pe.trans pe')
+        (fun z hz => hmem z (List.mem_cons_of_mem _ hz))
+      refine ⟨a, b, ?_⟩
+      rw [c, List.filter_cons]
+      have : decide (rootOf s (s.elts.idxOf e) = root) = false := by rw [er]; simp [hroot]
+      rw [this]; simp
+
 theorem component_spec' {s : State} (inv : Inv s) {x : Nat} (hx : x ∈ s.elts) :
     ∃ s', component s x = some (s', s.elts.filter (fun e =>
         decide (rootOf s (s.elts.idxOf e) = rootOf s (s.elts.idxOf x)))) ∧
       Inv s' ∧ PEquiv s s' := by
-  obtain ⟨i1, pe1, hrs⟩ := rootsList_spec inv
-  have hx1 : x ∈ (rootsList s).1.elts := by rw [pe1.elts]; exact hx
-  obtain ⟨s2, rx, hf, inv2, pe2, hr, _⟩ := find_spec i1 hx1
-  rw [pe1.elts, pe1.par.reach] at hr
+  obtain ⟨s1, rx, hf, inv1, pe1, hr, _⟩ := find_spec inv hx
   have er := (rootOf_eq_iff inv (idxOf_lt hx) rx).mpr hr
-  refine ⟨s2, ?_, inv2, pe1.trans pe2⟩
+  obtain ⟨a, b, c⟩ := compFold_spec inv1 rx s1.elts (s1, []) inv1 (PEquiv.refl s1) (fun _ h => h)
+  refine ⟨(s1.elts.foldl (compStep rx) (s1, [])).1, ?_, a, pe1.trans b⟩
   have hm := (mem_iff s x).mpr hx
-  rw [er, ← zip_map_filterMap, ← hrs]
-  simp only [component, hm, if_true]
-  rw [hf]
+  simp only [component, hm, if_true, hf]
+  congr 1
+  apply Prod.ext
+  · rfl
+  · simp only []
+    rw [c, List.nil_append, pe1.elts, er]
+    apply List.filter_congr
+    intro e he
+    rw [pe1.rootOf inv inv1 (idxOf_lt he)]
 
 theorem find_elts {s s' : State} {x r : Nat} (h : find s x = some (s', r)) : s'.elts = s.elts := by
   by_cases hx : x ∈ s.elts
@@ -871,14 +911,27 @@ theorem rootsFold_elts : ∀ (l : List Nat) (acc : State × List Nat),
   | nil => intro acc; rfl
   | cons e l ih => intro acc; rw [List.foldl_cons, ih, rootsStep_elts]
 
+theorem compStep_elts (root : Nat) (acc : State × List Nat) (e : Nat) :
+    (compStep root acc e).1.elts = acc.1.elts := by
+  unfold compStep
+  split
+  · rfl
+  · rename_i s' r h
+    split <;> exact find_elts h
+
+theorem compFold_elts (root : Nat) : ∀ (l : List Nat) (acc : State × List Nat),
+    (l.foldl (compStep root) acc).1.elts = acc.1.elts := by
+  intro l
+  induction l with
+  | nil => intro acc; rfl
+  | cons e l ih => intro acc; rw [List.foldl_cons, ih, compStep_elts]
+
 theorem component_eq_none_iff (s : State) (x : Nat) : component s x = none ↔ x ∉ s.elts := by
   constructor
   · intro h hx
     have hm := (mem_iff s x).mpr hx
-    have hx1 : x ∈ (rootsList s).1.elts := by
-      rw [rootsList_eq, rootsFold_elts]; exact hx
     simp only [component, hm, if_true] at h
-    rw [find_of_mem hx1] at h
+    rw [find_of_mem hx] at h
     cases h
   · exact component_of_not_mem
 
